@@ -2709,7 +2709,9 @@ def fixed_list_search(vs):
     keys = probhat_keys()
     data = bundled_data()
     un = {0x2018: "'", 0x2019: "'", 0x201C: '"', 0x201D: '"'}
-    words = ["হাসি", "কুল", "লল", "আমা", "দাদ", "কর", "আগুন", "ঘর", "ক", "রাজযক্ষ্ম", "রাজযক"]      # the last two: prefixes of the one word the bundled dictionary lists twice
+    # রাজযক্ষ্ম, রাজযক: prefixes of the one word the bundled dictionary lists twice; চাঁদ পাতা পুষ্প: emoji names that are prefixes of more than
+    # twenty dictionary words (the list being sorted is longer than the length up to which the standard unstable sort is an insertion sort)
+    words = ["হাসি", "কুল", "লল", "আমা", "দাদ", "কর", "আগুন", "ঘর", "ক", "রাজযক্ষ্ম", "রাজযক", "চাঁদ", "পাতা", "পুষ্প"]
     wraps = [("", ""), ('"', '"'), ("'", "'"), ("(", ")"), ('"', "")]
     scs = []
     meta = []
